@@ -499,14 +499,14 @@ def Layers.get {α} (l : Layers α) : Layer → α
 
 /-- `fit.stats.get_armor_rps / get_shield_rps(dmg_profile, reload)`; `profile = none` = caller passed `None`. -/
 def fitRps (s : Snap) (layer : Layer) (profile : Option D4) (reload : Bool) : R Rat := do
-  let raw ← (localReps s layer ++ remoteReps s layer).foldlM
-    (fun acc (p : Item × Eff) => do pure (acc + (← effRps s p.1 p.2 reload))) 0
-  match profile with
-  | none => pure raw
-  | some p =>
-    match s.shipItem with
-    | none => .error .attrErr                              -- `None._get_tanking_efficiency`
-    | some sh => do
+  match s.shipItem with
+  | none => pure 0                                         -- a fit without ship has nothing to repair
+  | some sh =>
+    let raw ← (localReps s layer ++ remoteReps s layer).foldlM
+      (fun acc (p : Item × Eff) => do pure (acc + (← effRps s p.1 p.2 reload))) 0
+    match profile with
+    | none => pure raw
+    | some p => do
       let rs ← sh.resists
       pure (raw * (← tankEff p (rs.get layer)))
 
